@@ -1250,3 +1250,33 @@ Proof.
     destruct (dfw_sig w id); rewrite <- H in Rg; try exact Rg; destruct (find_sig c id); try reflexivity; discriminate Rg.
   - rewrite Lg. unfold sdefs. rewrite map_map. reflexivity.
 Qed.
+
+(* none of the modelled writer calls crashes, whatever the arguments and the state *)
+Theorem step_never_faults : forall w o, snd (df_step w o) <> DfFault.
+Proof.
+  intros w o. destruct o as [d|d|meta st data|sig|sig|sig a s|sig|]; cbn [df_step].
+  - unfold df_wr_source. destruct (JLS_SOURCE_COUNT <=? so_id d); [discriminate|].
+    destruct (df_is_defd (dfw_src w (so_id d))); [discriminate|].
+    destruct (df_save_ok (so_name d) && df_save_ok (so_vendor d) && df_save_ok (so_model d)
+              && df_save_ok (so_version d) && df_save_ok (so_serial d)); discriminate.
+  - unfold df_wr_signal.
+    destruct (JLS_SIGNAL_COUNT <=? sg_id d); [discriminate|].
+    destruct (JLS_SOURCE_COUNT <=? sg_src d); [discriminate|].
+    destruct (negb (df_is_defd (dfw_src w (sg_src d)))); [discriminate|].
+    destruct (df_is_defd (dfw_sig w (sg_id d))); [discriminate|].
+    destruct (negb ((sg_type d =? JLS_SIGNAL_TYPE_FSR) || (sg_type d =? JLS_SIGNAL_TYPE_VSR))); [discriminate|].
+    destruct (negb (df_save_ok (sg_name d) && df_save_ok (sg_units d))); [discriminate|].
+    destruct (negb (df_validate d)); [discriminate|].
+    destruct ((sg_type d =? JLS_SIGNAL_TYPE_FSR) && (sg_rate d =? 0)); discriminate.
+  - unfold df_wr_user_data.
+    destruct (st =? JLS_STORAGE_TYPE_INVALID); [discriminate|].
+    destruct (st =? JLS_STORAGE_TYPE_BINARY); [discriminate|].
+    destruct ((st =? JLS_STORAGE_TYPE_STRING) || (st =? JLS_STORAGE_TYPE_JSON)); [|discriminate].
+    destruct data; discriminate.
+  - unfold df_data. destruct (df_sig_validate_typed w sig JLS_SIGNAL_TYPE_FSR =? 0); discriminate.
+  - unfold df_data. destruct (df_sig_validate_typed w sig JLS_SIGNAL_TYPE_FSR =? 0); discriminate.
+  - unfold df_data.
+    match goal with |- context [if ?b =? 0 then _ else _] => destruct (b =? 0) end; discriminate.
+  - unfold df_data. destruct (df_sig_validate_typed w sig JLS_SIGNAL_TYPE_FSR =? 0); discriminate.
+  - discriminate.
+Qed.
